@@ -363,6 +363,12 @@ Fixpoint ic_scan (i : Z) (at_start in_comment : bool) (l : list Z) : list Z :=
   end.
 Definition ic_delims (data : list Z) : list Z :=
   if ic_comment_tabs_ignored then ic_scan 0 true false data else delim_positions 9 data.
+(* the index formulas of DelimitedBufferWithInernalComments, by name (regenerated from /repo into Gen/C02.v, bridged) *)
+Definition m_ic_probe (d : Z) : Z := d + 1.          (* data[delimiters[:-1] + 1] == COMMENT *)
+Definition m_ic_end_del : Z -> Z := Z.add 1.         (* np.delete(delimiters, comment_mask + 1) *)
+Definition m_ic_sentinel : Z := -1.                  (* np.insert(start_delimiters, 0, -1) *)
+Definition m_ic_start : Z -> Z := Z.add 1.           (* return start_delimiters + 1, ... *)
+Definition m_ic_n_fields (i : Z) : Z := i + 1.       (* next(i for i, d in enumerate(ends) if data[d] == '\n') + 1 *)
 (* DelimitedBufferWithInernalComments: delimiters that open / close a comment line are deleted *)
 Definition ic_table (chunk : list Z) : option table :=
   match rev (positions 10 chunk) with
@@ -370,15 +376,15 @@ Definition ic_table (chunk : list Z) : option table :=
   | lastnl :: _ =>
       let data := firstn (Z.to_nat (lastnl + 1)) chunk in
       let delims := ic_delims data in
-      let cm := flatnonzero (map (fun d => (nthZ data d =? 10) && (nthZ data (d + 1) =? 35)) (removelast delims)) in
+      let cm := flatnonzero (map (fun d => (nthZ data d =? 10) && (nthZ data (m_ic_probe d) =? 35)) (removelast delims)) in
       let sd := removelast (np_delete delims cm) in
-      let ed := np_delete delims (map (Z.add 1) cm) in
-      let sd' := if nthZ data 0 =? 35 then sd else (-1) :: sd in
+      let ed := np_delete delims (map m_ic_end_del cm) in
+      let sd' := if nthZ data 0 =? 35 then sd else m_ic_sentinel :: sd in
       let ed' := if nthZ data 0 =? 35 then tl ed else ed in
       match find_index (fun e => nthZ data e =? 10) 0 ed' with
       | None => None
       | Some i =>
-          match reshape (i + 1) (map (Z.add 1) sd'), reshape (i + 1) ed' with
+          match reshape (m_ic_n_fields i) (map m_ic_start sd'), reshape (m_ic_n_fields i) ed' with
           | Some s, Some e => Some {| t_data := data; t_starts := s; t_ends := if ic_cr_adjusts then cr_adjust data e else e;
                                       t_eends := map (fun r => lastz r + 1) e |}
           | _, _ => None
@@ -621,25 +627,35 @@ Definition geno2_col (t : table) : colres :=
 (* ---------- wrapped FASTA: MultiLineFastaBuffer.from_raw_buffer + get_data ---------- *)
 Fixpoint group_by (counts : list Z) (ls : list (list Z)) : list (list Z) :=
   match counts with [] => [] | n :: r => concat (firstn (Z.to_nat n) ls) :: group_by r (skipn (Z.to_nat n) ls) end.
+(* the index formulas of MultiLineFastaBuffer, by name (regenerated from /repo into Gen/C02.v, bridged in Bridge/C02.v) *)
+Definition m_fa_next (p : Z) : Z := p + 1.            (* from_raw_buffer: chunk[new_lines + 1] == '>' *)
+Definition m_fa_cut (p : Z) : Z := p + 1.             (* entry_starts = new_lines[new_entries] + 1; chunk[:entry_starts[-1]] *)
+Definition m_fa_line_start (p : Z) : Z := p + 1.      (* get_data: line_starts = np.insert(new_lines + 1, 0, 0) *)
+Definition m_fa_last_end (size : Z) : Z := size - 1.  (* line_ends = np.append(new_lines, data.size - 1) *)
+Definition m_fa_cr_window : Z := 10.                  (* _modify_ends_for_carriage_returns looks at line_ends[:10] *)
+Definition m_fa_entry_line (i : Z) : Z := i + 1.      (* new_entries = np.insert(new_entries + 1, 0, 0) *)
+Definition m_fa_n_lines (d : Z) : Z := d - 1.         (* n_lines_per_entry = np.diff(...) - 1 *)
+Definition m_fa_total (nl : Z) : Z := nl + 1.         (* ... np.append(new_entries, new_lines.size + 1) *)
+Definition m_fa_name_from : Z := 1.                   (* headers = data[new_entries, 1:] *)
 Definition fasta_cols (file : list Z) : option (Z * list colres) :=
   let chunk := file ++ [62] in                       (* the reader appends the new-entry marker at end of file *)
   if negb (nthZ chunk 0 =? 62) then None else
   let nls := positions 10 (removelast chunk) in
-  let ne := flatnonzero (map (fun p => nthZ chunk (p + 1) =? 62) nls) in
+  let ne := flatnonzero (map (fun p => nthZ chunk (m_fa_next p) =? 62) nls) in
   match rev ne with
   | [] => None
   | lastne :: _ =>
-      let data := firstn (Z.to_nat (nthZ nls lastne + 1)) chunk in
+      let data := firstn (Z.to_nat (m_fa_cut (nthZ nls lastne))) chunk in
       let new_lines := firstn (Z.to_nat lastne) nls in
       let new_entries := removelast ne in
-      let line_starts := 0 :: map (Z.add 1) new_lines in
-      let line_ends0 := new_lines ++ [len data - 1] in
-      let line_ends := if existsb (fun e => py_get data (e - 1) =? 13) (firstn 10 line_ends0)
-                       then map (fun e => e - (if py_get data (e - 1) =? 13 then 1 else 0)) line_ends0 else line_ends0 in
+      let line_starts := 0 :: map m_fa_line_start new_lines in
+      let line_ends0 := new_lines ++ [m_fa_last_end (len data)] in
+      let line_ends := if existsb (fun e => py_get data (m_cr_probe e) =? m_cr_byte) (firstn (Z.to_nat m_fa_cr_window) line_ends0)
+                       then map (fun e => m_cr_adjust e (py_get data (m_cr_probe e))) line_ends0 else line_ends0 in
       let lines := map (text_at data) (combine line_starts line_ends) in
-      let hdr := 0 :: map (Z.add 1) new_entries in
-      let counts := map (fun d => d - 1) (diff (hdr ++ [len new_lines + 1])) in
-      let headers := map (fun i => tl (nth (Z.to_nat i) lines [])) hdr in
+      let hdr := 0 :: map m_fa_entry_line new_entries in
+      let counts := map m_fa_n_lines (diff (hdr ++ [m_fa_total (len new_lines)])) in
+      let headers := map (fun i => skipn (Z.to_nat m_fa_name_from) (nth (Z.to_nat i) lines [])) hdr in
       let seqlines := map snd (filter (fun p => negb (existsb (Z.eqb (fst p)) hdr)) (combine (arange (len lines)) lines)) in
       Some (len hdr, [Col (map CBytes headers); Col (map CBytes (group_by counts seqlines))])
   end.
